@@ -7,7 +7,7 @@
    the first offending payload size), so the replay entry's "code" names the
    input:  payload = code / 4. *)
 From Coq Require Import List NArith ZArith QArith Qround Bool.
-From LW Require Import Base.Outcome Misc.Gps Misc.GpsSpec Misc.Airtime Misc.AirtimeSpec Misc.Eirp.
+From LW Require Import Base.Outcome Misc.Gps Misc.GpsSpec Misc.Airtime Misc.AirtimeSpec Misc.Eirp Misc.Sens.
 Import ListNotations.
 Open Scope Z_scope.
 
@@ -95,12 +95,10 @@ Definition eirp_prop (p : Q) (o_idx : N) (o_val : outcome Q) : bool :=
   end.
 
 (* ---------- sensitivity ---------- *)
-(* S = -174 + 10 log10(BW) + NF + SNR, checked to +-0.1 dB with integers:
-   y := o + 174 - (nf+snr), m := floor(20 y):  10^(m-1) <= bw^200 <= 10^(m+2)   (bw^200 = 10^(20 * 10 log10 bw)) *)
-Definition sens_prop (bw : Z) (nfsnr o : Q) : bool :=
-  let y := (o + 174 - nfsnr)%Q in
-  let m := Qfloor (20 * y) in
-  (0 <? bw) && (10 ^ (m - 1) <=? bw ^ 200) && (bw ^ 200 <=? 10 ^ (m + 2)).
+(* S = -174 + 10 log10(BW) + NF + SNR, checked to +-0.1 dB with the integer bracket of Misc/Sens.v;
+   Misc/SensProofs.v (sens_bracket_sound) proves over the reals that an accepted value is within
+   0.1 dB of the formula *)
+Definition sens_prop (bw : Z) (nfsnr o : Q) : bool := sens_bracket bw nfsnr o.
 
 Definition check (c : case) : N :=
   match c with
